@@ -83,6 +83,7 @@ impl<'a> Sink<'a> {
                 }
             }
             Bucket::NativeUd => st.native_ud += 1,
+            Bucket::NativeNonCanonical => st.native_noncanonical += 1,
             Bucket::OutcomeMismatch => st.outcome_mismatch += 1,
         }
         if !st.seen_forms.contains(&fkey) {
@@ -1433,7 +1434,7 @@ pub fn nat_evidence(run: &mut Run, census: &Census, out: &NatOutcome, sweeps: &[
     let s = &out.stats;
     run.cov("states", json!(s.distinct_pre));
     run.cov("transitions", json!(s.cases));
-    run.cov("traces_validated_against_impl", json!(s.cases - s.native_ud));
+    run.cov("traces_validated_against_impl", json!(s.cases - s.native_ud - s.native_noncanonical));
     run.cov("evaluations", json!(s.cases));
     run.cov("distinct_nontrivial", json!(s.distinct_native));
     run.cov(
@@ -1451,6 +1452,7 @@ pub fn nat_evidence(run: &mut Run, census: &Census, out: &NatOutcome, sweeps: &[
     run.cov("both_fault", json!(s.both_fault));
     run.cov("emulator_unimplemented", json!(s.unimplemented));
     run.cov("native_ud_dropped", json!(s.native_ud));
+    run.cov("native_noncanonical_target_dropped", json!(s.native_noncanonical));
     run.cov("outcome_mismatch_cases", json!(s.outcome_mismatch));
     run.cov("cases_with_relevant_difference", json!(s.cases_with_diff));
     run.cov("unplaceable_shapes_skipped", json!(out.unplaceable));
